@@ -172,8 +172,15 @@ class Stack(Formattable):
             type(self.error), self.error, self.error.__traceback__
         ):
             if line != "Traceback (most recent call last):\n":
-                for subline in line.splitlines(True):
-                    yield "  " + subline
+                # Every entry we produce is one newline-terminated line.
+                # (str.splitlines() would also split at a dozen other
+                # characters that can occur in a message, and hand them
+                # back as if they were the line terminator.)
+                sublines = line.split("\n")
+                if sublines[-1] == "":
+                    sublines.pop()
+                for subline in sublines:
+                    yield "  " + subline.replace("\r", "\\r") + "\n"
 
     def as_stdlib_summary(
         self,
